@@ -23,11 +23,12 @@ type listUniverse struct {
 	keys     []string
 	prefixes []string
 	maxLive  int
-	other    string // the non-'/' delimiter tried on mem/bolt
+	other    string // a non-'/' delimiter
+	multi    string // a delimiter of more than one character
 }
 
 func newListUniverse(alpha string, maxLen, maxLive int, other string, keyLimit int) *listUniverse {
-	u := &listUniverse{name: alpha, alpha: alpha, maxLive: maxLive, other: other}
+	u := &listUniverse{name: alpha, alpha: alpha, maxLive: maxLive, other: other, multi: string(alpha[1]) + string(alpha[0])}
 	for _, s := range model.Strings(alpha, maxLen) {
 		if s == "" {
 			u.prefixes = append(u.prefixes, s)
@@ -43,6 +44,10 @@ func newListUniverse(alpha string, maxLen, maxLive int, other string, keyLimit i
 	// a few three-segment keys and longer prefixes (two delimiters) on top of the exhaustive short ones
 	a, b := string(alpha[0]), string(alpha[1])
 	extraKeys := []string{a + "/" + b + "/" + a, a + "/" + a + "/" + b}
+	if strings.Contains(alpha, "-") {
+		// directories "a" and "a-": "a-/" sorts before "a/" although "a" sorts before "a-"
+		extraKeys = append(extraKeys, "a-/a")
+	}
 	u.prefixes = append(u.prefixes, a+"//"+a, a+"/"+b+"/", a+"/"+a+"/", a+"/"+b+"/"+a, a+"//"+b)
 	defer func() { u.keys = append(u.keys, extraKeys...); sort.Strings(u.keys) }()
 	if keyLimit > 0 && len(u.keys) > keyLimit {
@@ -243,10 +248,7 @@ func (s *listSys) Key() string {
 }
 
 func (s *listSys) delims() []string {
-	if s.w.Cfg.Kind.IsFs() {
-		return []string{"", "/"}
-	}
-	return []string{"", "/", s.u.other}
+	return []string{"", "/", s.u.other, s.u.multi}
 }
 
 // sideOK applies the statement's side conditions for a delimiter.
@@ -268,6 +270,9 @@ func delimClass(d string) string {
 		return "nodelim"
 	case "/":
 		return "slash"
+	}
+	if len(d) > 1 {
+		return "multi-char"
 	}
 	return "other"
 }
@@ -367,6 +372,52 @@ func (s *listSys) checkListing() ([]*engine.Violation, int64) {
 				if v2 && len(exp) > 0 && (!lp.HasKeyCount || lp.KeyCount != len(exp)) {
 					bad("keycount", fmt.Sprintf("KeyCount %d (present=%v), want %d", lp.KeyCount, lp.HasKeyCount, len(exp)))
 				}
+			}
+		}
+	}
+	// parameters in unusual but legal spellings
+	type special struct {
+		name, q string
+		p, d    string
+		refuse  bool // a client-error answer is acceptable instead
+	}
+	long := strings.Repeat("x", 256)
+	for _, sp := range []special{
+		{"raw-semicolon-in-prefix", "prefix=a;b", "a;b", "", true},
+		{"raw-semicolon-delimiter", "delimiter=;", "", ";", true},
+		{"raw-semicolon-after-prefix", "prefix=" + urlq(firstOr(keys, "a")) + "&x=1;y=2", firstOr(keys, "a"), "", true},
+		{"prefix-segment-longer-than-a-file-name", drv.Q("prefix", long+"/", "delimiter", "/"), long + "/", "/", false},
+		{"prefix-segment-longer-than-a-file-name", drv.Q("prefix", "a/"+long+"/k", "delimiter", "/"), "a/" + long + "/k", "/", false},
+		{"prefix-with-nul", drv.Q("prefix", "a\x00b/", "delimiter", "/"), "a\x00b/", "/", false},
+	} {
+		for _, v2 := range []bool{false, true} {
+			q := sp.q
+			if v2 {
+				q = joinQ(q, "list-type=2")
+			}
+			lp := s.w.List(s.bucket, q)
+			evals++
+			bad := func(field, msg string) {
+				vs = append(vs, viol(sig("C03", kind, "list-special", sp.name, field), "GET /%s?%s with live keys %q: %s", s.bucket, q, keys, msg))
+			}
+			if lp.Panic != "" {
+				bad("panic@"+drv.PanicFrame(lp.Panic), firstLine(lp.Panic))
+				continue
+			}
+			if sp.refuse && lp.Status >= 400 && lp.Status < 500 {
+				continue
+			}
+			if lp.Status != 200 {
+				bad(fmt.Sprintf("status=%d:%s", lp.Status, lp.Code), fmt.Sprintf("expected 200, got %d %s", lp.Status, lp.Code))
+				continue
+			}
+			ek, ec := model.Split(model.Group(keys, sp.p, sp.d))
+			var gk []string
+			for _, e := range lp.Entries {
+				gk = append(gk, e.Key)
+			}
+			if strings.Join(gk, "\x00") != strings.Join(ek, "\x00") || strings.Join(lp.Prefixes, "\x00") != strings.Join(ec, "\x00") {
+				bad("listing", fmt.Sprintf("Contents %q CommonPrefixes %q, want %q and %q", gk, lp.Prefixes, ek, ec))
 			}
 		}
 	}
